@@ -2,8 +2,11 @@
 import json
 import subprocess
 import threading
+import time
 
 from . import common
+
+TIMEOUT = 60
 
 
 def _worker(reqs, out, idx):
@@ -20,8 +23,26 @@ def _worker(reqs, out, idx):
 
     t = threading.Thread(target=feed)
     t.start()
+    # watchdog: a request that does not come back within TIMEOUT seconds kills the server (reported as crashed/hung)
+    last = [time.time()]
+    done = [False]
+
+    def watch():
+        while not done[0]:
+            time.sleep(1.0)
+            if time.time() - last[0] > TIMEOUT:
+                try:
+                    p.kill()
+                except OSError:
+                    pass
+                return
+
+    wt = threading.Thread(target=watch, daemon=True)
+    wt.start()
     for line in p.stdout:
+        last[0] = time.time()
         res.append(json.loads(line))
+    done[0] = True
     t.join()
     rc = p.wait()
     err = p.stderr.read()
